@@ -248,7 +248,7 @@ func main() {
 	// (loop invariants, variants, callee preconditions) belong to the property as well
 	fnWanted := map[string]bool{}
 	for _, o := range eng.obls {
-		if o.Kind == "ensures" {
+		if o.Kind == "ensures" || o.Kind == "crash-invariant" {
 			for _, t := range o.Tags {
 				if match(t) {
 					fnWanted[o.Func] = true
@@ -260,7 +260,7 @@ func main() {
 	for _, o := range eng.obls {
 		keepIt := len(tagw) == 0
 		switch o.Kind {
-		case "invariant-entry", "invariant-preserved", "decreases", "callee-precondition", "frame":
+		case "invariant-entry", "invariant-preserved", "decreases", "callee-precondition", "frame", "crash-invariant":
 			if fnWanted[o.Func] {
 				keepIt = true
 			}
